@@ -26,6 +26,9 @@ type c03bScenario struct {
 	Rounds [][]int `json:"rounds"`
 	// Choices: which permitted launch option the provider takes (index modulo the option count); -1 = the largest cpu
 	Choices []int `json:"choices"`
+	// Joins: how far the i-th launched NodeClaim gets before the next round: "" (launched only) | "zero" (its node has
+	// registered but reports the pool's limited resources as 0) | "absent" (registered, no status yet) | "ready"
+	Joins []string `json:"joins,omitempty"`
 }
 
 func drawC03b(t *rapid.T) *c03bScenario {
@@ -61,6 +64,7 @@ func drawC03b(t *rapid.T) *c03bScenario {
 		s.Rounds[r] = append(s.Rounds[r], i)
 	}
 	s.Choices = rapid.SliceOfN(rapid.IntRange(-1, 5), 4, 4).Draw(t, "choices")
+	s.Joins = rapid.SliceOfN(rapid.SampledFrom([]string{"", "", "zero", "zero", "absent", "ready"}), 4, 4).Draw(t, "joins")
 	return s
 }
 
@@ -152,6 +156,31 @@ func execC03b(s *c03bScenario, c *ev.Ctx) {
 			created++
 			perPool[res.NewNodeClaims[i].NodePoolName]++
 			w.ReconcileNodeClaim(lc, name) // launch: the provider picks
+			// ... and its node may register before the next round, with the kubelet still to report what it has
+			if cur := w.GetNodeClaim(name); cur != nil && cur.Status.ProviderID != "" && len(s.Joins) > 0 {
+				var limited []string
+				if np := b.Pools[res.NewNodeClaims[i].NodePoolName]; np != nil {
+					for r := range np.Spec.Limits {
+						limited = append(limited, string(r))
+					}
+					sort.Strings(limited)
+				}
+				switch s.Joins[(launchIdx+i)%len(s.Joins)] {
+				case "zero":
+					w.JoinNode(cur, sim.JoinOpts{ZeroResources: limited})
+					w.ReconcileNodeClaim(lc, name)
+					c.Class("launched_node_registered_with_unreported_resources")
+				case "absent":
+					w.JoinNode(cur, sim.JoinOpts{AbsentResources: []string{"*"}})
+					w.ReconcileNodeClaim(lc, name)
+					c.Class("launched_node_registered_with_unreported_resources")
+				case "ready":
+					node := w.JoinNode(cur, sim.JoinOpts{})
+					w.ReconcileNodeClaim(lc, name)
+					w.MakeNodeReady(node.Name, cur)
+					w.ReconcileNodeClaim(lc, name)
+				}
+			}
 		}
 		// the pods that got capacity leave the pending set (they will bind); the others stay for the next round
 		placed := map[types.UID]bool{}
@@ -212,7 +241,7 @@ func execC03b(s *c03bScenario, c *ev.Ctx) {
 
 var propC03b = ev.Prop[c03bScenario]{
 	ID: "C03", Test: "TestC03b",
-	Rule: "rapid draws a scheduler world whose 1-2 dynamic pools carry limits on 1-2 of cpu / memory / gpu / pods (node-count limits only apply to static pools) sized around a few instances of the catalog, up to 3 existing nodes and up to 12 pods arriving over 1-3 rounds; each round runs the REAL Provisioner.Schedule + CreateNodeClaims, every created NodeClaim is launched by the REAL lifecycle controller with the provider taking a generated permitted option (or the largest), placed pods leave, cluster state is re-synced; " +
+	Rule: "rapid draws a scheduler world whose 1-2 dynamic pools carry limits on 1-2 of cpu / memory / gpu / pods (node-count limits only apply to static pools) sized around a few instances of the catalog, up to 3 existing nodes and up to 12 pods arriving over 1-3 rounds; each round runs the REAL Provisioner.Schedule + CreateNodeClaims, every created NodeClaim is launched by the REAL lifecycle controller with the provider taking a generated permitted option (or the largest), and its node may register before the next round (reporting the limited resources as 0, no status at all, or everything), placed pods leave, cluster state is re-synced; " +
 		"oracle after every round, for every pool that created a NodeClaim in it and every limited resource: the capacity of the pool's NodeClaims that are neither being deleted nor marked for deletion by Karpenter (launched capacity as the provider reported it; for a NodeClaim that could not be launched the largest capacity any permitted option would bring); <= limit; " +
 		"non-trivial = NodeClaims were created for a pool that ended within one largest instance of a limit",
 	Assumptions: []string{"no per-offering capacity overrides (Karpenter accounts limits on the instance type's capacity)", "pools that already exceed a limit before the history are only judged when they create more"},
